@@ -1,5 +1,6 @@
 // C18 — SSH and Gh0st: banner exchanges are answered exactly, malformed ones are not.
 
+use crate::vf::shadow::{shadow_opt, with_shadow, Shadow};
 use proptest::collection::vec;
 use proptest::prelude::*;
 use serde::{Deserialize, Serialize};
@@ -38,9 +39,19 @@ pub struct Case {
     /// IP / TCP header fields the responder is not documented to look at
     #[serde(default)]
     pub tweak: Option<IpTweak>,
+    /// sibling traffic sent before every frame of the case (vf/shadow.rs)
+    #[serde(default)]
+    pub shadow: Option<Shadow>,
 }
 
 pub fn case_strategy() -> impl Strategy<Value = Case> {
+    (case_strategy0(), shadow_opt()).prop_map(|(mut c, sh)| {
+        c.shadow = sh;
+        c
+    })
+}
+
+fn case_strategy0() -> impl Strategy<Value = Case> {
     let msg = prop_oneof![
         6 => ssh_banner().prop_map(Msg::Banner),
         3 => (ssh_banner(), 0u8..4).prop_map(|(b, ending)| Msg::Unterminated { b, ending }),
@@ -50,7 +61,7 @@ pub fn case_strategy() -> impl Strategy<Value = Case> {
     ];
     (scenario(Fam::Any), port(), port(), any::<bool>(), msg, prop::option::weighted(0.25, crate::vf::props::c03::ip_tcp_tweak())).prop_map(|(mut scn, sport, dport, tcp, msg, tweak)| {
         scn.cfg.logger = LoggerKind::None;
-        Case { scn, sport, dport, tcp, msg, tweak }
+        Case { shadow: None, scn, sport, dport, tcp, msg, tweak }
     })
 }
 
@@ -59,6 +70,10 @@ fn has_crlf(v: &[u8]) -> bool {
 }
 
 pub fn check(c: &Case, st: &mut Stats) -> Check {
+    with_shadow(&c.shadow, st, |st| check0(c, st))
+}
+
+fn check0(c: &Case, st: &mut Stats) -> Check {
     Sut::reset();
     st.eval();
     let _ambient = AmbientGuard::set(&c.tweak);
